@@ -380,9 +380,10 @@ pub fn all() -> Vec<CheckDef> {
                 Family { enumerate: Some(queuelist::qmicro_enumerate), variant: "", name: "queue-micro-two-preemption-points-enumerated", strategy: |_| queuelist::queue_strategy(), cases: queuelist::qmicro_total },
                 Family { enumerate: None, variant: "", name: "queue-histories", strategy: |_| queuelist::queue_strategy(), cases: |t| t.pick(60_000, 600_000) },
                 Family { enumerate: None, variant: "", name: "Q1-pop-that-keeps-losing-the-head-race", strategy: |_| queuelist::queue_starvation_strategy(), cases: |t| t.pick(6_000, 60_000) },
+                Family { enumerate: None, variant: "", name: "Q2-push-parked-while-its-nodes-are-retired-and-freed", strategy: |_| queuelist::queue_reclaim_strategy(), cases: |t| t.pick(6_000, 60_000) },
             ],
             exec: queuelist::exec_c17,
-            rule: "2-4 scheduled threads, <=8 ops each (push of a unique value, try_pop, try_pop_if with a generated threshold on the element's low byte) on the collector's internal queue type, optionally prefilled, with preemption at the queue's loads/CASes (tail lag, head/tail crossing). Oracle: the complete invocation/response history (plus the final drain) must have a linearisation accepted by the sequential FIFO specification with conditional pop (Wing-Gong search, memoised), no value popped twice or invented, pushed = popped + drained. Non-trivial = operations of two threads overlapped and at least one conditional pop was refused; distinct = distinct hash of the case",
+            rule: "2-4 scheduled threads, <=8 ops each (push of a unique value, try_pop, try_pop_if with a generated threshold on the element's low byte) on the collector's internal queue type, optionally prefilled, with preemption at the queue's loads/CASes (tail lag, head/tail crossing). Oracle: the complete invocation/response history (plus the final drain) must have a linearisation accepted by the sequential FIFO specification with conditional pop (Wing-Gong search, memoised), no value popped twice or invented, pushed = popped + drained. Family Q2 adds collection rounds (op Collect: flush + re-pin, 4 times) after a push that was parked inside the call while a rival pushed and popped everything, so that retired queue nodes are really freed - and poisoned by the harness allocator - within the case: a tail left on a freed node is a crash or a lost element. Non-trivial = operations of two threads overlapped and (at least one conditional pop was refused, or the case ran collection rounds); distinct = distinct hash of the case",
             timeout_s: t60,
             assumptions: vec![ASSUME_SC, ASSUME_HOOKS],
             shards: s16,
